@@ -293,14 +293,27 @@ func ZZH_C19_OtherBlocks() {
 	src := &zzhSrc{}
 	doc := ast.NewDocument()
 	want := []string{}
+	var codeLines []string
 	switch zzvChoice(4) {
 	case 0:
-		cb := ast.NewFencedCodeBlock(nil)
+		// a fenced block (its lines are adjacent in the source), or an indented block / indented
+		// fence (the indentation the parser strips sits in the source between the line segments)
 		l1, l2 := zzhWordC19(2), zzhWordC19(2)
+		var cb ast.Node
+		pad := ""
+		if zzvBool() {
+			cb = ast.NewFencedCodeBlock(nil)
+		} else {
+			cb = ast.NewCodeBlock()
+			pad = "    "
+		}
+		src.add(pad)
 		cb.Lines().Append(src.add(l1 + "\n"))
+		src.add(pad)
 		cb.Lines().Append(src.add("  " + l2 + "\n"))
 		doc.AppendChild(doc, cb)
 		want = append(want, l1, "  "+l2)
+		codeLines = []string{l1 + "\n", "  " + l2 + "\n"}
 	case 1:
 		bq := ast.NewBlockquote()
 		p := ast.NewParagraph()
@@ -342,6 +355,15 @@ func ZZH_C19_OtherBlocks() {
 	}
 	for _, w := range want {
 		zzvAssert(zzvStrContains(all, w), "the text of code lines, quotes and list items is kept")
+	}
+	if codeLines != nil {
+		ps := d.Body.GetParagraphs()
+		zzvAssert(len(ps) == len(codeLines), "code keeps its lines: one paragraph per line")
+		if len(ps) == len(codeLines) {
+			for i, l := range codeLines {
+				zzvAssert(zzhRunsText(ps[i]) == l, "code keeps its lines and indentation exactly")
+			}
+		}
 	}
 	zzvReach("blocks")
 }
